@@ -37,6 +37,18 @@ TRUSTED_BASE = [
 ]
 
 
+def guarded_translate(ctx, fn, which, empty):
+    """run a translator; if it cannot process the current source the tie is broken (reported as such - the generated Lean files may be stale) but the
+    dynamic part of the check still runs, so that a failing input can be searched for"""
+    try:
+        return fn()
+    except Exception as ex:
+        import traceback
+        ctx.corr_break(f"the {which} translator cannot process the current source ({type(ex).__name__}: {ex}); the generated Lean definitions are not "
+                       "those of this source", dict(translator=which, traceback=traceback.format_exc()[-1500:]))
+        return empty
+
+
 class InfrastructureError(RuntimeError):
     """lake / driver / toolchain problems: exit 2, never a verdict"""
 
